@@ -30,7 +30,7 @@ one only through the derived one, over names that same-stage siblings define too
 private to it), so the removed variable is often reached only INDIRECTLY while a sibling still defines it.
  P. every workflow of B that is loaded with primitive=False is ALSO loaded with the default primitive=True
     (graphFromFlowIR / packageFromLocation default; the only gate for a dangling reference there is
-    FlowIR.validate_references): all structural faults, a sample of the others (all in the thorough tier); the property
+    FlowIR.validate_references): all structural faults, a sample of the others (3 in 10 quick, 1 in 2 thorough); the property
     predicate is evaluated on the outcome (AddBackEdge and the clashes of expanded identifiers are not judged there: a
     primitive load expands nothing and looks for no cycle) and the outcome is compared with Model.accept_prim.
     The reference faults include the ones where the NAME survives: a component name used in two stages (dropping one
@@ -920,6 +920,11 @@ def load_mutants(w, tier, rng, corpus=False, variables_only=False):
                 clash = ids2 is not None and len(ids2) != len(set(ids2))
                 if not clash and tier == 'quick' and rng.random() < 0.6:
                     continue
+                if not clash and idl[j] in cnt:
+                    # two EXPANDED producers one of whose names extends the other (x1 and x10): the loader rewrites
+                    # the references of a replica textually and may refuse such a well-formed workflow (outside the
+                    # property and the model, see gen_wf): the control is judged by the predicate only
+                    m['predicate_only'] = True
                 out.append(('ReplicaNameClash' if clash else 'ReplicaNameNoClash', clash, [], finalize(m), None,
                             'B:ReplicaNameClash with %s sibling' % ('an aggregating' if (w['comps'][j]['opts'].get(
                                 'workflowAttributes') or {}).get('aggregate') else 'a plain') if clash else None))
@@ -1306,7 +1311,7 @@ def explore_loads(ctx, items):
         flowir = render(w)
         acc, exc, reasons, problems, dt = real_load(flowir)
         real_ids = LAST_IDS[0]
-        if fault in PRIM_ALWAYS or ctx.tier != 'quick' or ctx.rng.random() < 0.3:
+        if fault in PRIM_ALWAYS or ctx.rng.random() < (0.3 if ctx.tier == 'quick' else 0.5):
             explore_prim_load(ctx, item, flowir, pterms, pmetas)
         slow = max(slow, dt)
         ctx.count('B:' + fault)
@@ -1334,7 +1339,9 @@ def explore_loads(ctx, items):
                 ctx.count('B:accepted loads whose expansion was compared with the mirror')
         # ---- the model
         try:
-            if classes:
+            if classes or w.get('predicate_only'):
+                if not classes:
+                    ctx.count('B:%s judged by the predicate only (textual rewriting of replica references)' % fault)
                 # inside an open finding's class the model (schema applied to the document as written) is known
                 # to differ from the pinned code: only the predicate is evaluated
                 continue
